@@ -365,7 +365,7 @@ func (s Sel) ArgIs(i int, term string) Sel {
 		if !ok {
 			return false
 		}
-		args := c.Common().Args
+		args := BaselineArgs(c.Common())
 		return i < len(args) && Term(args[i]) == term
 	})
 }
@@ -435,7 +435,7 @@ func callString(c *ssa.CallCommon) string {
 	if name == "" {
 		return "call(" + r.term(c.Value) + ")(" + r.args(c.Args) + ")"
 	}
-	return name + "(" + r.args(c.Args) + ")"
+	return name + "(" + r.args(BaselineArgs(c)) + ")"
 }
 
 // ---------------------------------------------------------------------------
